@@ -24,6 +24,7 @@ var scenarioNames = []string{
 	"shutdown-stops-all",
 	"broker-unsubscribe-nil-or-twice",
 	"listener-close-vs-shutdown",
+	"close-after-peer-cancelread",
 }
 
 // MaxIdleTimeoutForQuicConnections while the harness runs; a connection whose peer is gone ends at
@@ -357,6 +358,85 @@ func scenarioMain(args []string) {
 			}
 			m.Shutdown()
 			count(fmt.Sprintf("%s|%d", name, round%4), true)
+		}
+	case "close-after-peer-cancelread":
+		// the peer stops reading (CancelRead => STOP_SENDING): closing the QUIC stream then reports an
+		// error ("close called for canceled stream"), and Conn.Close must release what it releases
+		// anyway; also Close after SetDeadline / SetWriteDeadline in the past and after the other
+		// end has ended the connection
+		st, ct := fastTLS()
+		li, err := b.Listen("svc", st)
+		Must(err)
+		acc := make(chan *netceptor.Conn, 16)
+		go func() {
+			for {
+				c, err := li.Accept()
+				if err != nil {
+					return
+				}
+				acc <- c.(*netceptor.Conn)
+			}
+		}()
+		time.Sleep(200 * time.Millisecond)
+		base2, _, _ := settle(nodes, 300*time.Millisecond, 3*time.Second)
+		for _, mode := range []string{"dialler-cancelread", "acceptor-cancelread", "past-deadlines", "both-cancelread"} {
+			lg.step("mode %s: 4 connections; stream methods, Conn.Close at the writing end(s), connection ended by CloseConnection", mode)
+			closeErrs := map[string]int{}
+			for i := 0; i < 4; i++ {
+				ctx, cancel := context.WithTimeout(context.Background(), 5*time.Second)
+				c, err := a.DialContext(ctx, "beta", "svc", ct)
+				cancel()
+				if err != nil {
+					res.violate("dial to an open listener failed: "+err.Error(), "dial-failed", mode)
+					continue
+				}
+				ac := <-acc
+				_, _ = c.Write([]byte("ping"))
+				buf := make([]byte, 8)
+				_, _ = ac.Read(buf)
+				switch mode {
+				case "dialler-cancelread":
+					c.CancelRead()
+				case "acceptor-cancelread":
+					ac.CancelRead()
+				case "both-cancelread":
+					c.CancelRead()
+					ac.CancelRead()
+				case "past-deadlines":
+					_ = c.SetDeadline(time.Now().Add(-time.Second))
+					_ = ac.SetWriteDeadline(time.Now().Add(-time.Second))
+					_ = ac.SetReadDeadline(time.Now().Add(-time.Second))
+				}
+				_, _ = ac.Write([]byte("data the peer may not want any more"))
+				_, _ = c.Write([]byte("same"))
+				time.Sleep(40 * time.Millisecond) // let STOP_SENDING arrive
+				closeErrs[fmt.Sprint(ac.Close())]++
+				closeErrs[fmt.Sprint(c.Close())]++
+				if i%2 == 0 {
+					_ = c.CloseConnection()
+				} else {
+					_ = ac.CloseConnection()
+				}
+			}
+			for k, v := range closeErrs {
+				res.hist(fmt.Sprintf("scenario-close-result[%s]:%s=%d", mode, k, v))
+			}
+			now, regs, _ := settle(nodes, connQuiet(), 8*time.Second)
+			if len(regs[0]) > 0 {
+				res.violate(fmt.Sprintf("4 connections closed at both ends and ended (%s): the dialling node still has %v registered", mode, regs[0]), "leak:ephemeral-service:"+mode, nil)
+			}
+			if d := diffBuckets(base2, now); len(d) > 0 {
+				res.violate(fmt.Sprintf("4 connections closed at both ends (Conn.Close after %s) and ended by CloseConnection, listener still open: goroutines left behind: %v", mode, d),
+					"leak:connection-goroutines:close-after-"+mode, d)
+			}
+			count(name+"|"+mode, true)
+		}
+		done := make(chan struct{})
+		go func() { _ = li.Close(); close(done) }()
+		select {
+		case <-done:
+		case <-time.After(5 * time.Second):
+			res.violate("Listener.Close() did not return within 5s", "hang:listener-close", nil)
 		}
 	case "shutdown-stops-all":
 		st, ct := fastTLS()
